@@ -34,20 +34,31 @@ ORDINALS = ['nearest_neighbors', 'next_nearest_neighbors', 'next_next_nearest_ne
 
 # ---------------------------------------------------------------- enumeration of lattice specs
 
-def orderings(cls, wrap):
-    if wrap and wrap['kind'] == 'helical':  # documented: C-style up to a permutation inside the unit cell
+def orderings(cls, wrap, part, tier):
+    """Every named ordering of the class, tuple forms and three custom permutations.
+
+    The couplings depend on the order only through the index maps (checked for every order in part 'maps'):
+    the quick tier uses a default, an x-non-monotonic and a custom order there."""
+    kind = wrap['kind'] if wrap else None
+    if kind == 'helical':  # documented: C-style up to a permutation inside the unit cell
         return ['Cstyle'] + [o for o in CLASSES[cls][3] if o[0] == 'grouped' and len(o) == 2 and len(o[1]) == 1]
-    tuples = [] if wrap and wrap['kind'] == 'species' else CLASSES[cls][3]  # (its ordering() takes names only for a SimpleLattice)
+    if part == 'multi' and tier == 'quick':
+        return ['default'] + ([['perm', 1]] if kind is None else [])
+    if part == 'multi' or (part == 'coup' and tier == 'quick'):
+        return ['default', ['perm', 1]] + (['Fstyle'] if kind is None or part == 'multi' else [])
+    tuples = [] if kind == 'species' else CLASSES[cls][3]  # (its ordering() takes names only for a SimpleLattice)
     return NAMED + CLASSES[cls][2] + tuples + [['perm', k] for k in range(3)]
 
 
-def boundary_conditions(dim, tier):
+def boundary_conditions(dim, tier, part):
     """(bc, bc_MPS) combinations; infinite / segment MPS need a periodic x direction."""
     if dim == 1:
         bcs = ['open', 'periodic']
     else:
         shifts = [1, -1] if tier == 'quick' else [1, -1, 2]
         bcs = [[bx, by] for bx in ('open', 'periodic') for by in ['open', 'periodic'] + shifts]
+        if part != 'maps':  # which pairs are neighbours across a shifted boundary next to an open one is not documented
+            bcs = [b for b in bcs if not (b[0] == 'open' and isinstance(b[1], int))]
         bcs = [b[0] if b[0] == b[1] else b for b in bcs]  # the single-string form where possible
     out = []
     for bc in bcs:
@@ -64,7 +75,7 @@ def sizes(cls, tier):
     return [list(Ls) for Ls in itertools.product(range(1, Lmax + 1), repeat=CLASSES[cls][0])]
 
 
-def wraps(cls, Ls, tier):
+def wraps(cls, Ls, tier, part):
     """Wrapper lattices built on top of the regular one: None, multi-species, irregular, helical."""
     dim, Lu = CLASSES[cls][:2]
     out = [None]
@@ -73,11 +84,12 @@ def wraps(cls, Ls, tier):
     if cls in ('Chain', 'Ladder', 'Square', 'Honeycomb'):
         cells = list(itertools.product(*[range(L) for L in Ls]))
         coords = [list(c) + [u] for c in cells for u in range(Lu)]
-        removable = coords if tier != 'quick' else [coords[0], coords[-1]]
+        removable = coords if tier != 'quick' else [coords[0], coords[-1]] if part == 'maps' else [coords[0]]
         if len(coords) > 1:
             out += [dict(kind='irregular', remove=[c]) for c in removable]
         mid = list(cells[len(cells) // 2])
-        out += [dict(kind='irregular', add=[mid + [Lu], pos]) for pos in (None, -1, 0.5, len(coords))]
+        # (where the added site goes in the MPS matters for the order only)
+        out += [dict(kind='irregular', add=[mid + [Lu], pos]) for pos in ((None, -1, 0.5, len(coords)) if part == 'maps' else (None,))]
         if len(coords) > 2:
             out.append(dict(kind='irregular', remove=[coords[1]], add=[list(cells[-1]) + [Lu], None]))
     if cls in ('Square', 'Honeycomb', 'Kagome'):
@@ -85,18 +97,18 @@ def wraps(cls, Ls, tier):
     return out
 
 
-def specs(cls, Ls, tier, wrap_filter=None, order_filter=None):
-    for wrap in wraps(cls, Ls, tier):
-        if wrap_filter is not None and not wrap_filter(wrap):
+def specs(cls, Ls, tier, part, wrap_index=None):
+    for w, wrap in enumerate(wraps(cls, Ls, tier, part)):
+        if wrap_index is not None and w != wrap_index:
             continue
         if wrap and wrap['kind'] == 'helical':
             bcs = [(['periodic', -1], 'infinite')]
         else:
-            bcs = boundary_conditions(CLASSES[cls][0], tier)
-        for order in orderings(cls, wrap):
-            if order_filter is not None and not order_filter(order):
-                continue
+            bcs = boundary_conditions(CLASSES[cls][0], tier, part)
+        for order in orderings(cls, wrap, part, tier):
             for bc, bc_MPS in bcs:
+                if tier == 'quick' and part != 'maps' and bc_MPS == 'segment' and (wrap or order != 'default'):
+                    continue  # the lattice treats 'segment' like 'infinite'
                 yield dict(cls=cls, Ls=Ls, order=order, bc=bc, bc_MPS=bc_MPS, wrap=wrap)
 
 
@@ -156,7 +168,8 @@ def build(spec):
     elif kind == 'irregular':
         add = wrap.get('add')
         lat = tl.IrregularLattice(lat, remove=wrap.get('remove'), add=None if add is None else ([add[0]], [add[1]]),
-                                  add_unit_cell=[] if add is None else ['extra'])
+                                  add_unit_cell=[] if add is None else ['extra'],
+                                  add_positions=None if add is None else np.full((1, lat.basis.shape[1]), 0.25))
     elif kind == 'helical':
         lat = tl.HelicalLattice(lat, wrap['n'])
     return lat
@@ -248,53 +261,54 @@ class Ref:
                 t[0] -= k * self.shift[a]
         return tuple(t)
 
-    def margin(self, dxs):
-        """x_0 range of first sites that can give a coupling touching the MPS unit cell."""
-        if not self.inf:
-            return range(0, self.Ls[0])
-        W = max(abs(d[0]) for d in dxs) * 2 + self.Ls[0] + 1
-        for a in range(1, self.dim):
-            W += abs(self.shift[a]) * (2 * max(abs(d[a]) for d in dxs) // self.Ls[a] + 2)
-        return range(-W, self.Ls[0] + W)
+    def placements(self, dxs, anchor):
+        """Coordinate level, independent of the order and of which sites exist: for every position x of the box
+        the (wrapped) cells of all operators and the index `corner` = x + min(dxs) modulo the coupling shape.
 
-    def shape(self, lo, hi):
-        return tuple(L - (h - l) * int(o) for L, l, h, o in zip(self.Ls, lo, hi, self.open))
-
-    def couplings(self, us, dxs):
-        """All couplings of operators on sites (x + dxs[k], us[k]): sorted list of (mps indices, corner).
-
-        One entry per position x of the box such that all sites exist under the boundary conditions; for a
-        non-finite MPS one representative per translation, 0 <= min(indices) < N_sites.  `corner` is the lower
-        left corner of the box, modulo the coupling shape."""
-        lo = [min(d[a] for d in dxs) for a in range(self.dim)]
-        hi = [max(d[a] for d in dxs) for a in range(self.dim)]
-        shape = self.shape(lo, hi)
-        out = []
-        self.flags = flags = set()
-        if any(s <= 0 for s in shape):
-            return shape, out
-        for cell in itertools.product(self.margin(dxs), *[range(L) for L in self.Ls[1:]]):
-            if self.index(cell + (us[0],)) is None:
-                continue
-            inds = []
-            for u, d in zip(us, dxs):
-                t = self.wrap([x + dk - d0 for x, dk, d0 in zip(cell, d, dxs[0])])
-                if t is None:
-                    flags.add('open-boundary-drop')
-                    break
-                i = self.index(t + (u,))
-                if i is None:
-                    flags.add('missing-site-drop')
-                    break
-                inds.append(i)
-            else:
-                if self.inf and not 0 <= min(inds) < self.N:
+        What `x` is: for add_coupling the cell of the site of OP0 (`anchor=0`); for add_multi_coupling the corner
+        itself is a cell of the lattice (`anchor=None`).  Non-finite MPS: x_0 also runs over the neighbouring MPS
+        unit cells, far enough to contain every box touching the unit cell."""
+        key = (self.Ls, tuple(self.open), tuple(self.shift), self.inf, dxs, anchor)
+        if key not in _PLACEMENTS:
+            lo = [min(d[a] for d in dxs) for a in range(self.dim)]
+            hi = [max(d[a] for d in dxs) for a in range(self.dim)]
+            shape = tuple(L - (h - l) * int(o) for L, l, h, o in zip(self.Ls, lo, hi, self.open))
+            origin = lo if anchor is None else dxs[anchor]
+            xs = range(self.Ls[0])
+            if self.inf:
+                W = (hi[0] - lo[0]) + sum(abs(self.shift[a]) * ((hi[a] - lo[a]) // self.Ls[a] + 1) for a in range(1, self.dim))
+                xs = range(-W, self.Ls[0] + W)
+            res, dropped = [], False
+            for cell in itertools.product(xs, *[range(L) for L in self.Ls[1:]]) if all(s > 0 for s in shape) else ():
+                ts = [self.wrap([x + dk - d0 for x, dk, d0 in zip(cell, d, origin)]) for d in dxs]
+                if None in ts:
+                    dropped = True
                     continue
-                if self.inf and max(inds) >= self.N:
+                res.append((ts, tuple((x - d0 + l) % s for x, d0, l, s in zip(cell, origin, lo, shape))))
+            _PLACEMENTS[key] = shape, res, dropped
+        return _PLACEMENTS[key]
+
+    def couplings(self, us, dxs, anchor):
+        """All couplings of operators on the sites (x + dxs[k], us[k]): sorted list of (mps indices, corner).
+
+        One entry per position of the box such that all sites exist under the boundary conditions; for a
+        non-finite MPS one representative per translation, 0 <= min(indices) < N_sites."""
+        shape, places, dropped = self.placements(dxs, anchor)
+        self.flags = flags = {'open-boundary-drop'} if dropped else set()
+        out = []
+        for ts, corner in places:
+            inds = [self.index(t + (u,)) for t, u in zip(ts, us)]
+            if None in inds:
+                flags.add('missing-site-drop')
+            elif not self.inf or 0 <= min(inds) < self.N:
+                if max(inds) >= self.N:
                     flags.add('crosses-mps-unit-cell')
-                corner = tuple((x - d0 + l) % s for x, d0, l, s in zip(cell, dxs[0], lo, shape))
                 out.append((tuple(inds), corner))
         return shape, sorted(out)
+
+
+_PLACEMENTS = {}
+_STRENGTHS = {}
 
 
 class Ctx:
@@ -305,12 +319,11 @@ class Ctx:
 
 
 def spec_key(spec):
-    """Stable class of a lattice spec for violation keys (no sizes)."""
+    """Stable class of a lattice spec for violation keys: lattice class, wrapper, finite or not."""
     w = spec['wrap']['kind'] if spec['wrap'] else 'plain'
     if w == 'irregular':
         w += '-' + '+'.join(k for k in ('remove', 'add') if spec['wrap'].get(k))
-    bc = spec['bc'] if isinstance(spec['bc'], str) else '-'.join('shift' if isinstance(b, int) else b for b in spec['bc'])
-    return '%s:%s:%s:%s' % (spec['cls'], w, bc, spec['bc_MPS'])
+    return '%s:%s:%s' % (spec['cls'], w, 'finite' if spec['bc_MPS'] == 'finite' else 'nonfinite')
 
 
 # ---------------------------------------------------------------- checks (each returns a list of (key, what))
@@ -363,8 +376,6 @@ def _lat_shape(ctx, u):
 def check_values(ctx, seed):
     """mps2lat_values for every axes / u option: the value of MPS site j sits at the coordinates of site j."""
     lat, ref, bad, n = ctx.lat, ctx.ref, [], 0
-    if ref.kind == 'helical':  # documented NotImplementedError
-        return bad, n
     rng = np.random.default_rng(seed)
     N = ref.N
     Nc = int(np.prod(ref.Ls))
@@ -381,6 +392,10 @@ def check_values(ctx, seed):
         axs = sorted(a % A.ndim for a in ([axes] if isinstance(axes, int) else axes))
         try:
             got = lat.mps2lat_values(A, axes, u)
+        except NotImplementedError:
+            if ref.kind is None:
+                raise
+            continue  # a wrapper may refer to mps2lat_values_masked (as HelicalLattice documents)
         except Exception as e:  # noqa: BLE001
             bad.append(('mps2lat_values:%s' % type(e).__name__, 'mps2lat_values(A%s, axes=%s, u=%s): %s: %s' % (shp, axes, u, type(e).__name__, e)))
             continue
@@ -409,8 +424,10 @@ def check_values_masked(ctx, seed):
     subsets = [None, list(range(N))[::2], u0]
     if ref.inf:
         subsets += [list(range(-N - 1, 2 * N + 1)), [j + 2 * ref.period for j in u0], list(range(-2, 1))]
+    xs = [c[0] for c in ref.sites]
     for inds, include_u, two in itertools.product(subsets, (None, True, False), (False, True)):
         js = list(range(N)) if inds is None else inds
+        tag = '%s-unit-cell:%s' % ('inside' if all(0 <= j < N for j in js) else 'outside', 'x-ordered' if xs == sorted(xs) else 'x-unordered')
         if not (include_u if include_u is not None else ref.Lu > 1) and len({ref.coord(j)[-1] for j in js}) > 1:
             continue  # without the u axis the coordinates of different u collide
         n += 1
@@ -424,7 +441,7 @@ def check_values_masked(ctx, seed):
         try:
             got = lat.mps2lat_values_masked(A, **call)
         except Exception as e:  # noqa: BLE001
-            bad.append(('mps2lat_values_masked:%s' % type(e).__name__, 'mps2lat_values_masked(%s): %s: %s' % (call, type(e).__name__, e)))
+            bad.append(('mps2lat_values_masked:%s:%s' % (tag, type(e).__name__), 'mps2lat_values_masked(%s): %s: %s' % (call, type(e).__name__, e)))
             continue
         cs = [ref.coord(j) if (include_u if include_u is not None else ref.Lu > 1) else ref.coord(j)[:-1] for j in js]
         ok = got.count() == A.size
@@ -433,7 +450,7 @@ def check_values_masked(ctx, seed):
         elif ok:
             ok = all(got[c] == A[a] for a, c in enumerate(cs))
         if not ok:
-            bad.append(('mps2lat_values_masked:misplaced', 'mps2lat_values_masked(%s): %d unmasked of %d or value not at the coordinates of its site' % (call, got.count(), A.size)))
+            bad.append(('mps2lat_values_masked:%s:misplaced' % tag, 'mps2lat_values_masked(%s): %d unmasked of %d or value not at the coordinates of its site' % (call, got.count(), A.size)))
     return bad, n
 
 
@@ -441,11 +458,20 @@ def as_rows(*cols):
     return sorted(zip(*[[tuple(r) if isinstance(r, list) else r for r in np.asarray(c).tolist()] for c in cols]))
 
 
+def strength_array(ref, shape, seed):
+    """Distinct values with one zero (documented to be filtered out); uniform for the translation invariant helix."""
+    key = (shape, seed, ref.kind == 'helical')
+    if key not in _STRENGTHS:
+        vals = np.random.default_rng(seed).permutation(int(np.prod(shape))).reshape(shape) * 0.5
+        _STRENGTHS[key] = np.full(shape, 0.5 + seed) if ref.kind == 'helical' else vals
+    return _STRENGTHS[key]
+
+
 def check_coupling(ctx, u1, u2, dx, seed):
     """possible_couplings(u1, u2, dx) without and with strength against the brute force."""
     lat, ref = ctx.lat, ctx.ref
     dx = tuple(dx)
-    shape, exp = ref.couplings((u1, u2), ((0,) * ref.dim, dx))
+    shape, exp = ref.couplings((u1, u2), ((0,) * ref.dim, dx), 0)
     bad = []
     try:
         mi, mj, li, cs = lat.possible_couplings(u1, u2, np.array(dx))
@@ -463,14 +489,15 @@ def check_coupling(ctx, u1, u2, dx, seed):
         if all(s >= 0 for s in shape) and (tuple(cs) != shape or tuple(sh) != shape or tuple(shift) != tuple(min(0, d) for d in dx)):
             bad.append(('coupling_shape', 'dx=%s: coupling_shape %s / %s shift %s, expected %s' % (dx, cs, sh, shift, shape)))
         if all(s > 0 for s in shape):
-            strength = np.random.default_rng(seed).permutation(int(np.prod(shape))).reshape(shape) * 0.5
+            strength = strength_array(ref, shape, seed)
             si, sj, sv = lat.possible_couplings(u1, u2, np.array(dx), strength)
             got = as_rows(np.stack([si, sj], axis=1).reshape(-1, 2), sv)
             exps = sorted((ij, float(strength[c])) for ij, c in exp if strength[c] != 0)
             if got != exps:
                 bad.append(('possible_couplings:strength', 'possible_couplings(%d, %d, %s, strength): got %s expected %s' % (u1, u2, dx, got[:8], exps[:8])))
     except Exception as e:  # noqa: BLE001
-        bad.append(('possible_couplings:%s' % type(e).__name__, 'possible_couplings(%d, %d, %s): %s: %s' % (u1, u2, dx, type(e).__name__, e)))
+        tag = 'dx-larger-than-open-lattice:' if any(x < 0 for x in shape) else ''
+        bad.append(('possible_couplings:%s%s' % (tag, type(e).__name__), 'possible_couplings(%d, %d, %s): %s: %s' % (u1, u2, dx, type(e).__name__, e)))
     return bad, exp
 
 
@@ -478,7 +505,7 @@ def check_multi(ctx, us, dxs, seed):
     """possible_multi_couplings for operators at (dxs[k], us[k])."""
     lat, ref = ctx.lat, ctx.ref
     dxs = tuple(tuple(d) for d in dxs)
-    shape, exp = ref.couplings(us, dxs)
+    shape, exp = ref.couplings(us, dxs, None)
     ops = [('op%d' % k, list(d), u) for k, (d, u) in enumerate(zip(dxs, us))]
     bad = []
     try:
@@ -496,14 +523,15 @@ def check_multi(ctx, us, dxs, seed):
         if all(s >= 0 for s in shape) and (tuple(cs) != shape or tuple(sh) != shape or tuple(shift) != tuple(min(d[a] for d in dxs) for a in range(ref.dim))):
             bad.append(('multi_coupling_shape', 'dx=%s: shape %s / %s shift %s, expected %s' % (dxs, cs, sh, shift, shape)))
         if all(s > 0 for s in shape):
-            strength = np.random.default_rng(seed).permutation(int(np.prod(shape))).reshape(shape) * 0.5
+            strength = strength_array(ref, shape, seed)
             sijk, sv = lat.possible_multi_couplings(ops, strength)
             got = as_rows(np.asarray(sijk, dtype=int).reshape(-1, len(us)), sv)
             exps = sorted((ij, float(strength[c])) for ij, c in exp if strength[c] != 0)
             if got != exps:
                 bad.append(('possible_multi_couplings:strength', 'possible_multi_couplings(%s, strength): got %s expected %s' % (ops, got[:8], exps[:8])))
     except Exception as e:  # noqa: BLE001
-        bad.append(('possible_multi_couplings:%s' % type(e).__name__, 'possible_multi_couplings(%s): %s: %s' % (ops, type(e).__name__, e)))
+        tag = 'box-larger-than-open-lattice:' if any(x < 0 for x in shape) else ''
+        bad.append(('possible_multi_couplings:%s%s' % (tag, type(e).__name__), 'possible_multi_couplings(%s): %s: %s' % (ops, type(e).__name__, e)))
     return bad, exp
 
 
@@ -549,7 +577,7 @@ def check_pairs(ctx):
             if lat.count_neighbors(u, name) != cnt:
                 bad.append(('count_neighbors', 'count_neighbors(%d, %r)=%d, %d sites at distance %g' % (u, name, lat.count_neighbors(u, name), cnt, dists[k])))
     n += 1
-    found = lat.find_coupling_pairs(max_dx=3, cutoff=2.0 * min(np.linalg.norm(lat.basis, axis=-1)))
+    found = lat.find_coupling_pairs(max_dx=3, cutoff=1.9 * min(np.linalg.norm(lat.basis, axis=-1)))
     for k, (d, prs) in enumerate(sorted(found.items())):
         got = sorted(canon(*p) for p in prs)
         if abs(d - dists[k]) > 1e-8 or got != sorted(set(canon(*p) for p in classes[dists[k]])):
@@ -590,8 +618,8 @@ def multi_shapes(dim, Lu, tier):
     """All ordered triples of operators in a 2x2 box (1D: displacements -1..1)."""
     ds = list(itertools.product((0, 1), repeat=dim)) if dim == 2 else [(-1,), (0,), (1,)]
     us = list(itertools.product(range(Lu), repeat=3))
-    if tier == 'quick' and Lu > 2:  # every pattern of equal / different u
-        us = [u for u in us if set(u) <= {0, 1} or u == (0, 1, 2) or u == (2, 1, 0)]
+    if Lu > 2 and (tier == 'quick' or Lu > 3):  # every pattern of equal / different u
+        us = [u for u in us if set(u) <= {0, 1} or u in ((0, 1, 2), (2, 1, 0), (Lu - 1,) * 3)]
     return [(u, d) for d in itertools.product(ds, repeat=3) for u in us]
 
 
@@ -599,11 +627,8 @@ def units(tier, seed, label):
     us = []
     for cls in CLASSES:
         for Ls in sizes(cls, tier):
-            us.append(('maps', cls, Ls, tier, seed))
-            nw = len(wraps(cls, Ls, tier))
-            for w in range(nw):
-                us.append(('coup', cls, Ls, tier, seed, w))
-                us.append(('multi', cls, Ls, tier, seed, w))
+            for part in ('maps', 'coup', 'multi'):
+                us += [(part, cls, Ls, tier, seed, w) for w in range(len(wraps(cls, Ls, tier, part)))]
     us.append(('pairs', tier, seed))
     return us
 
@@ -623,7 +648,7 @@ def run_unit(unit):
         _, tier, seed = unit
         for cls in CLASSES:
             Ls = [3] * CLASSES[cls][0] if cls != 'Trivial' else [1]
-            for wrap in [w for w in wraps(cls, Ls, 'quick') if w is None or w['kind'] == 'species']:
+            for wrap in [w for w in wraps(cls, Ls, 'quick', 'maps') if w is None or w['kind'] == 'species']:
                 spec = dict(cls=cls, Ls=Ls, order='default', bc='periodic', bc_MPS='finite', wrap=wrap)
                 ctx = Ctx(spec)
                 fns = [check_pairs] + ([check_species_pairs] if wrap and wrap['kind'] == 'species' else [])
@@ -636,14 +661,7 @@ def run_unit(unit):
         return dict(evaluations=ev, nontrivial_count=nontriv, violations=viol, samples=[dict(part='pairs', classes=list(CLASSES))])
     cls, Ls, tier, seed = unit[1:5]
     dim = CLASSES[cls][0]
-    if part == 'maps':
-        it = specs(cls, Ls, tier)
-    else:
-        wrap = wraps(cls, Ls, tier)[unit[5]]
-        # multi couplings depend on the ordering only through lat2mps_idx: default + one custom order
-        of = (lambda o: o in ('default', 'Cstyle', ['perm', 1])) if part == 'multi' else None
-        it = specs(cls, Ls, tier, wrap_filter=lambda w: w == wrap, order_filter=of)
-    for spec in it:
+    for spec in specs(cls, Ls, tier, part, unit[5]):
         nlat += 1
         try:
             ctx = Ctx(spec)
